@@ -55,6 +55,8 @@ func Interface(ifaceVar interface{}, ctx *iface.IContext, method string, imp int
 		// 构造 iface 对象
 		fakeIface = iface.MakeInterface(ctx, funcTabIndex, itabFunc, typ)
 		ctx.Cache(ifaceCacheKey, fakeIface)
+		// a context that was cancelled is in use again: the methods mocked next belong to this table
+		ctx.Reopen()
 		applyIfaceTo(fakeIface, gen)
 	}
 	return nil
